@@ -336,10 +336,17 @@ func signature(metric labels.Labels, without bool, grouping []string, keepOrigin
 func buildOutputSeries(seriesID uint64, highCardSeries, lowCardSeries model.Series, includeLabels []string) model.Series {
 	metric := highCardSeries.Metric
 	if len(includeLabels) > 0 {
-		lowCardLabels := labels.NewBuilder(lowCardSeries.Metric).
-			Keep(includeLabels...).
-			Labels(nil)
-		metric = append(metric, lowCardLabels...)
+		// An included label replaces the one of the "many" side, or removes
+		// it when the "one" side does not have it; the result stays sorted.
+		lb := labels.NewBuilder(highCardSeries.Metric)
+		for _, ln := range includeLabels {
+			if v := lowCardSeries.Metric.Get(ln); v != "" {
+				lb.Set(ln, v)
+			} else {
+				lb.Del(ln)
+			}
+		}
+		metric = lb.Labels(nil)
 	}
 	return model.Series{ID: seriesID, Metric: metric}
 }
